@@ -119,8 +119,9 @@ def _run_task(args):
         out["dropped"] = sorted(task.dropped)
         out["gen_s"] = round(task.wall, 3)
         hooks = [getattr(m, "REPLAY_EXTRACT", None) for m in loaded]
-        for ob in task.obligations:
-            solve.discharge(ob, opts.get("z3_timeout_ms", 10000), opts.get("cvc5_timeout_s", 30), opts.get("cross_check", False))
+
+        def do_one(ob):
+            solve.discharge(ob, opts.get("z3_timeout_ms", 10000), opts.get("cvc5_timeout_s", 15), opts.get("cross_check", False))
             rec = {"name": ob.name, "kind": ob.kind, "status": ob.status, "backend": ob.backend,
                    "time": round(ob.time, 4), "tags": tags_of(ob.name), "line": ob.line,
                    "trace": [list(x) for x in ob.trace], "nhyps": len(ob.hyps)}
@@ -142,7 +143,42 @@ def _run_task(args):
                                     rec.setdefault("extract", {}).update(ex)
                             except Exception as e:  # extraction is best effort
                                 rec.setdefault("extract_errors", []).append(repr(e))
-            out["obligations"].append(rec)
+            return rec
+
+        obs = task.obligations
+        K = min(int(opts.get("sub_jobs", 8)), max(1, len(obs) // 60))
+        if K <= 1:
+            out["obligations"] = [do_one(ob) for ob in obs]
+        else:
+            # raw fork: children inherit the z3 terms; each discharges every K-th obligation and reports through a pipe
+            import pickle
+            kids = []
+            for k in range(K):
+                r, w = os.pipe()
+                pid = os.fork()
+                if pid == 0:
+                    os.close(r)
+                    try:
+                        recs = [(i, do_one(obs[i])) for i in range(k, len(obs), K)]
+                        data = pickle.dumps(recs)
+                    except BaseException:
+                        data = pickle.dumps(("error", traceback.format_exc()))
+                    with os.fdopen(w, "wb") as f:
+                        f.write(data)
+                    os._exit(0)
+                os.close(w)
+                kids.append((pid, r))
+            allrecs = {}
+            for pid, r in kids:
+                with os.fdopen(r, "rb") as f:
+                    data = f.read()
+                os.waitpid(pid, 0)
+                got = pickle.loads(data)
+                if isinstance(got, tuple) and got and got[0] == "error":
+                    raise RuntimeError("discharge worker failed:\n" + got[1])
+                for i, rec in got:
+                    allrecs[i] = rec
+            out["obligations"] = [allrecs[i] for i in range(len(obs))]
     except Unsupported as e:
         out["unsupported"] = str(e)
     except Exception:
@@ -205,6 +241,10 @@ def run_structural(ctx):
 
 def run_modules(mods, opts, jobs=16):
     ctx, loaded, tasks, nlem = plan(mods)
+    only = opts.get("only_tasks")
+    if only:
+        tasks = [t for t in tasks if t[0] in only or f"{t[0]}@{t[1]}" in only]
+        nlem = 0
     work = [(_run_task, (mods, n, r, opts)) for n, r in tasks] + [(_run_lemma, (mods, i, opts)) for i in range(nlem)]
     results = []
     if jobs <= 1 or len(work) <= 1:
